@@ -6,13 +6,22 @@ ops (all stateless):
                                                      → {"v":q,"j":[q..]}   (`nodeRow` of the rule over ℚ)
   {"op":"pow","c":int,"a":q,"ja":[q..]}              → {"v":q,"j":[q..]}   (`powIntRule`)
   {"op":"lin","width":n,"coef":[q..],"vals":[q..],"jacs":[[q..]..]} → {"v":q,"j":[q..]}  (`linRow`)
-  division by zero / 0 to a negative power answers {"err":"singular"}.
+  {"op":"var","width":n,"dof":k,"x":q}               → {"v":q,"j":[unit row k]}   (variable leaf: identity block)
+  {"op":"fn","name":"exp|log|tan|…","params":[q..],"a":q,"ja":[q..]} → {"v":q,"j":[q..]}  (`fnRuleF`, binary64)
+  {"op":"pow2","a":q,"ja":[q..],"b":q,"jb":[q..]}    → {"v":q,"j":[q..]}   (`powRuleF`: a ** b, binary64)
+  {"op":"norm","width":n,"vals":[q..],"jacs":[[q..]..]} → {"v":q,"j":[q..]}               (`normRowF`, binary64)
+  division by zero / 0 to a negative power answers {"err":"singular"}, a non-finite binary64 result {"err":"nonfinite"}.
 -/
 import PorepyVerif.Common.Wire
 import PorepyVerif.C03.Model
 open Lean PV PorepyVerif.C03
 
 def outRow (r : Rat × List Rat) : Json := obj [("v", ofRat r.1), ("j", ofRats r.2)]
+
+def outRowF (r : Float × List Float) : Json :=
+  match floatToRat r.1, r.2.mapM floatToRat with
+  | some v, some j => obj [("v", ofRat v), ("j", ofRats j)]
+  | _, _ => err "nonfinite"
 
 def step (_ : Unit) (j : Json) : R (Unit × Json) := do
   let op ← fStr j "op"
@@ -49,6 +58,34 @@ def step (_ : Unit) (j : Json) : R (Unit × Json) := do
     if coef.length != vals.length || coef.length != jacs.length then throw "length mismatch" else
     if jacs.any (fun r => r.length != w) then throw "row width mismatch" else
     pure ((), outRow (linRow w coef vals jacs))
+  | "var" =>
+    let w ← fNat j "width"
+    let k ← fNat j "dof"
+    let x ← fRat j "x"
+    if k ≥ w then throw "dof out of range" else
+    pure ((), outRow (x, (List.range w).map (fun c => if c == k then (1 : Rat) else 0)))
+  | "fn" =>
+    let name ← fStr j "name"
+    let ps ← fRats j "params"
+    let a ← fRat j "a"
+    let ja ← fRats j "ja"
+    match fnRuleF name (ps.map ratToFloat) with
+    | none => throw s!"unknown function {name} with {ps.length} parameters"
+    | some r => pure ((), outRowF (nodeRow1 r (ratToFloat a) (ja.map ratToFloat)))
+  | "pow2" =>
+    let a ← fRat j "a"
+    let b ← fRat j "b"
+    let ja ← fRats j "ja"
+    let jb ← fRats j "jb"
+    if ja.length != jb.length then throw "row length mismatch" else
+    pure ((), outRowF (nodeRow powRuleF (ratToFloat a) (ja.map ratToFloat) (ratToFloat b) (jb.map ratToFloat)))
+  | "norm" =>
+    let w ← fNat j "width"
+    let vals ← fRats j "vals"
+    let jacs ← fRatss j "jacs"
+    if vals.length != jacs.length then throw "length mismatch" else
+    if jacs.any (fun r => r.length != w) then throw "row width mismatch" else
+    pure ((), outRowF (normRowF w (vals.map ratToFloat) (jacs.map (·.map ratToFloat))))
   | _ => throw s!"unknown op {op}"
 
 def main : IO Unit := runDriver () step
